@@ -43,10 +43,18 @@ def frontier(pairs, resolver=None):
         if a is b or (a.id, b.id) in seen:
             continue
         seen.add((a.id, b.id))
-        if a.op == b.op and len(a.args) == len(b.args) and a.op not in ("c", "v", "b", "nonfinite"):
+        if a.op == b.op and (len(a.args) == len(b.args) or a.op in ("+", "*")) and a.op not in ("c", "v", "b", "nonfinite"):
             if a.op == "uf" and a.args[0] != b.args[0]:
                 out[(a.id, b.id)] = (a, b); continue
-            stack.extend(zip(sym.children(a), sym.children(b)))
+            ka, kb = sym.children(a), sym.children(b)
+            if a.op in ("+", "*"):
+                # n-ary AC-normalised: drop the common terms, pair the rest in order
+                ia, ib = {n.id for n in ka}, {n.id for n in kb}
+                ka2 = [n for n in ka if n.id not in ib]; kb2 = [n for n in kb if n.id not in ia]
+                if len(ka2) != len(kb2):
+                    out[(a.id, b.id)] = (a, b); continue
+                ka, kb = ka2, kb2
+            stack.extend(zip(ka, kb))
         elif resolver is not None and a.op == "v" and b.op == "v" and resolver(a, b) is not None:
             stack.extend(resolver(a, b))
         else:
